@@ -126,7 +126,7 @@ pub fn k_strategy() -> impl Strategy<Value = u16> {
     prop_oneof![2 => Just(10u16), 4 => 10u16..=60, 3 => 10u16..=500, 1 => Just(200u16)]
 }
 
-fn case_strategy(max_n: u32) -> impl Strategy<Value = Case> {
+pub fn case_strategy(max_n: u32) -> impl Strategy<Value = Case> {
     (
         k_strategy(),
         proptest::collection::vec(
@@ -306,7 +306,7 @@ pub fn battery(td: &mut TDigestMut, known: &Known, grid: usize, qseed: u64, ctx:
     Ok(BatteryStats { centroids: cents.len(), heavy_tail, worst_rq })
 }
 
-fn run_case(c: &Case, info: &mut CaseInfo) -> Result<(), Fail> {
+pub fn run_case(c: &Case, info: &mut CaseInfo) -> Result<(), Fail> {
     let mut td = TDigestMut::new(c.k);
     let mut known = Known { total: 0, min: f64::INFINITY, max: f64::NEG_INFINITY };
     let grid = 120;
@@ -423,7 +423,7 @@ pub struct ImageCase {
     pub qseed: u64,
 }
 
-fn image_case() -> impl Strategy<Value = ImageCase> {
+pub fn image_case() -> impl Strategy<Value = ImageCase> {
     (
         k_strategy(),
         0u8..4,
@@ -501,7 +501,7 @@ pub fn build_image(c: &ImageCase) -> (spec::TdImage, spec::Enc) {
     (spec::TdImage { k: c.k, empty: false, single: false, reverse_merge: c.reverse_merge, min, max, centroids: cents, buffered }, enc)
 }
 
-fn run_image(c: &ImageCase, info: &mut CaseInfo) -> Result<(), Fail> {
+pub fn run_image(c: &ImageCase, info: &mut CaseInfo) -> Result<(), Fail> {
     let (im, enc) = build_image(c);
     let bytes = spec::encode(&im, enc);
     let mut td = TDigestMut::deserialize(&bytes, enc == spec::Enc::Float).map_err(|e| Fail {
